@@ -117,7 +117,7 @@ func main() {
 			u, p, _ := strings.Cut(v, "\x00")
 			req.SetBasicAuth(u, p)
 		default:
-			req.Header.Add("Authorization", "Bearer "+v)
+			req.Header.Set("Authorization", "Bearer "+v)
 		}
 	}
 	var evals, nontriv, hardWithSat int64
@@ -251,9 +251,34 @@ func main() {
 					}
 				}
 			}
-			if authz > 1 {
+			// schemes that read the same credential (two bearer schemes: one Authorization header)
+			// cannot be presented independently: their outcomes are tied
+			tied, distinctAuthz := true, map[string]bool{}
+			for _, s := range idx {
+				if !isAuthz(spec.Schemes[s].Kind) {
+					continue
+				}
+				ch := spec.Schemes[s].Kind
+				if ch == "oauth2" {
+					ch = "bearer"
+				}
+				if state[s] != "absent" {
+					distinctAuthz[ch] = true
+				}
+				for _, s2 := range idx {
+					k2 := spec.Schemes[s2].Kind
+					if k2 == "oauth2" {
+						k2 = "bearer"
+					}
+					if s2 != s && k2 == ch && state[s2] != state[s] {
+						tied = false
+					}
+				}
+			}
+			if !tied || len(distinctAuthz) > 1 {
 				continue
 			}
+			_ = authz
 			evals++
 			if anyPresented {
 				nontriv++
